@@ -1,5 +1,7 @@
 import Claripy.VSA.Conc
 import ClaripyProofs.Lemmas.VSA.AddSub
+import ClaripyProofs.Lemmas.VSA.Cmp
+import ClaripyProofs.Lemmas.VSA.NotExt
 /-!
 # C21 — strided-interval transfer functions are sound
 
@@ -66,6 +68,33 @@ theorem C21_neg_sound (a : SI) (x : Nat) (ha : a.WF) (hx : a.mem x) :
 example : (SI.new 4 3 1 9).WF ∧ ({ bits := 4, stride := 5, lb := 14, ub := 6 } : SI).WF ∧ (SI.new 4 3 1 9).mem 7 ∧
     ({ bits := 4, stride := 5, lb := 14, ub := 6 } : SI).mem 3 ∧
     ((SI.new 4 3 1 9).sub { bits := 4, stride := 5, lb := 14, ub := 6 }).mem 4 := by decide
+
+/-! ## bitwise not, zero extension, unsigned orderings -/
+
+/-- `bitwise_not` is sound and closed -/
+theorem C21_not_sound (a r : SI) (ha : a.WF) (hnb : a.bottom = false) (h : a.bitwiseNot = .ok r) :
+    (r.WF ∧ r.bits = a.bits) ∧ ∀ x, a.mem x → r.mem (Conc.not a.bits x) := by
+  obtain ⟨h1, h2⟩ := not_sound a r ha hnb h
+  refine ⟨h1, ?_⟩
+  intro x hx
+  unfold Conc.not
+  rw [Nat.mod_eq_of_lt hx.2.1]
+  exact h2 x hx
+
+/-- `zero_extend` is sound and closed (wrapping operands included since the repair) -/
+theorem C21_zext_sound (a r : SI) (nl : Nat) (ha : a.WF) (hnb : a.bottom = false) (hnl : a.bits ≤ nl)
+    (h : a.zeroExtend nl = .ok r) : (r.WF ∧ r.bits = nl) ∧ ∀ x, a.mem x → r.mem (Conc.zext a.bits nl x) :=
+  zext_sound a r nl ha hnb hnl h
+
+/-- `ULT`, `ULE`, `UGT`, `UGE`: the BoolResult admits every truth value that occurs -/
+theorem C21_ucmp_sound (op : CmpOp) (hop : op = .ult ∨ op = .ule ∨ op = .ugt ∨ op = .uge) (a b : AV) (br : BoolRes)
+    (ha : a.si.WF) (hb : b.si.WF) (h : applyCmp op a b = .ok br) (x y : Nat) (hx : a.si.mem x) (hy : b.si.mem y) :
+    br.has (concCmp op a.si.bits x y) = true :=
+  ucmp_sound op hop a b br ha hb h x y hx hy
+
+/-- non-vacuity: a wrapping interval with a stride that does not divide 2^w -/
+example : (SI.new 3 3 6 4).WF ∧ (SI.new 3 3 6 4).mem 1 ∧ (SI.new 3 3 6 4).bitwiseNot = .ok (SI.new 3 3 3 1) ∧
+    (SI.new 3 3 3 1).mem 6 ∧ (SI.new 3 3 6 4).zeroExtend 5 = .ok (SI.new 5 1 1 6) := by decide
 
 /-! ## sdiv — false on the code (floor instead of truncation), finding C21-sdiv-floor -/
 
